@@ -7,7 +7,7 @@
 import AnnVerif.Model.Node
 namespace AnnVerif.Node
 
-theorem hashesTo_some {b h : Bytes} (hne : h.isEmpty = false) : hashesTo (some b) h = true ↔ b = h := by
+theorem hashesTo_some_iff {b h : Bytes} (hne : h.isEmpty = false) : hashesTo (some b) h = true ↔ b = h := by
   unfold hashesTo
   simp [hne]
 
@@ -31,7 +31,7 @@ theorem enterCommit_commits (n : Node) (cr : Int) (bid : VoteSet.BlockID)
     (hb : n.proposalBlock = some bid.hash) (hp : n.proposalParts = some bid.hash) (hc : n.partsComplete = true)
     (hv : isValid n bid.hash = true) (hl : n.lockedBlock = none ∨ n.lockedBlock = some bid.hash) :
     Emit.commit n.height bid.hash ∈ (enterCommit n n.height cr).out ∧ (enterCommit n n.height cr).height = n.height + 1 := by
-  have hpb : hashesTo (some bid.hash) bid.hash = true := (hashesTo_some hne).mpr rfl
+  have hpb : hashesTo (some bid.hash) bid.hash = true := (hashesTo_some_iff hne).mpr rfl
   have hne' : ¬ bid.hash = [] := by intro e; rw [e] at hne; simp at hne
   have hv' : isValid n bid.hash = true := hv
   unfold isValid at hv'
@@ -50,7 +50,7 @@ theorem parts_in_commit_step_commit (n : Node) (bid : VoteSet.BlockID) (own : Bo
     (hp : n.proposalParts = some bid.hash) (hc : n.partsComplete = false) (hv : isValid n bid.hash = true) :
     Emit.commit n.height bid.hash ∈ (addParts n n.height bid.hash own).out ∧
     (addParts n n.height bid.hash own).height = n.height + 1 := by
-  have hpb : hashesTo (some bid.hash) bid.hash = true := (hashesTo_some hne).mpr rfl
+  have hpb : hashesTo (some bid.hash) bid.hash = true := (hashesTo_some_iff hne).mpr rfl
   have hne' : ¬ bid.hash = [] := by intro e; rw [e] at hne; simp at hne
   have hv' : isValid n bid.hash = true := hv
   unfold isValid at hv'
